@@ -1044,6 +1044,17 @@ def f(l, n):
     return best, m, x
 ''')
 
+
+corpus('''
+def f(o, n):
+    a = o.mask
+    o.size = n % 7 + 1
+    b = o.mask
+    c = o.ival
+    o.size = 3
+    return a, b, c, o.ival, o.size, o.c
+''')
+
 # ---- input generation by parameter name ----------------------------------------------------------------------------------------
 
 
@@ -1055,7 +1066,7 @@ def gen_arg(name, rng):
     if name == 't':
         return [(rng.randrange(4), rng.randrange(10)) for _ in range(rng.randrange(6))]
     if name in ('o', 'self'):
-        return Obj(w=[rng.randrange(256) for _ in range(rng.choice([0, 1, 4]))], c=rng.randrange(400), d=0)
+        return Obj(w=[rng.randrange(256) for _ in range(rng.choice([0, 1, 4]))], c=rng.randrange(400), d=0, _sz=9, mask=511, ival=rng.randrange(512))
     if name == 'flag':
         return rng.random() < 0.5
     return rng.choice([0, 1, 2, 3, 4, 5, 7, 8, 9, 15, 16, 17, 31, 255, 256, 1000, rng.randrange(70000)])
@@ -1072,6 +1083,16 @@ class Obj(types.SimpleNamespace):
     def push(self, x):
         self.w.append(x)
         return self
+
+    @property
+    def size(self):
+        return self._sz
+
+    @size.setter
+    def size(self, v):
+        self._sz = v
+        self.mask = (1 << v) - 1
+        self.ival &= self.mask      # (the attributes crysp's own `size` setter stores: the write sets are name-based)
 
     def blocks(self, s, n):
         i = 0
